@@ -45,7 +45,9 @@ Theorems (Property.v; Proofs1..12.v ~ 2600 lines, build ~35 s):
                     original's serialization) unchanged
   C13_functional_pass_pure   functionalize(p)(m) leaves m's cells and serialization unchanged for every program of
                     edits over the clone it is given (environment contract, see trusted base)
-  C13_unsorted_outer_refuted   vm_compute witness of the known finding (hypothesis of C13_closed is necessary)
+  C13_closed_accepted   C13_closed WITHOUT that hypothesis for every accepted clone of a graph satisfying wf_dev: since
+                    82dd72c clone_graph itself rejects a passed-through value that later receives a clone (check_passed)
+  C13_unsorted_rejected   the former witness of the defect is rejected with and without the flag (vm_compute)
   C13_clone_is_graph, Example C13_hypotheses_satisfiable
 All full strength for the model; Raise OtherError (dangling id / fuel) is excluded by requiring Ok results, and
 the case files show the fuel given by the harness (next id) always suffices (a mismatch would be Ok vs Raise).
@@ -64,9 +66,14 @@ Readings of the English (weaker reading where ambiguous):
 Modelled, not verified: back-pointers (uses/producer/graph) and the name authority; tensor objects' fields;
 inner element-type objects shared between values of the ORIGINAL; meta values other than ints / lists of ints.
 
-Findings: (1) known, unsorted-outer-scope (orchestrator-confirmed; C13_unsorted_outer_refuted; fix proposed in
-proposed_fixes/C13-predeclare-node-outputs.diff, not applied: it changes behaviour of unsorted graphs and the
-model/proofs would need a "declared output" state).  (2) known, tensor-rename-alias: Value.name setter renames
+Findings: (1) FIXED 82dd72c, unsorted-outer-scope: Graph.clone(allow_outer_scope_values=True) of an unsorted graph
+kept the original's value in the clone; now the use before definition raises (early, before the node is built, for
+outputs of nodes of the graphs being cloned; and after the outputs are looked up for any passed-through value that
+received a clone).  The model has the second check only (same RuntimeError; only the exception kind is compared on
+rejection).  classify() no longer knows this finding: any reference from a clone to the original's own value, and any
+change of the original by a rejected clone, is a VIOLATION.  corpus unsorted_outer carries "expect": "rejected".
+(proposed_fixes/C13-predeclare-node-outputs.diff is the larger alternative that clones unsorted graphs correctly.)
+(2) known, tensor-rename-alias: Value.name setter renames
 the tensor object shared by clone and original; with the tensor also used as a node attribute the original's
 serialized proto changes after renaming the CLONE's value (corpus/C13/tensor_attr_shared.json); attributed by
 re-running the oracle with value renaming off; no small safe fix (documented setter behaviour).
@@ -1113,7 +1120,7 @@ def builtin_scenario(name: str):
         g = ir.Graph([x], n.outputs, nodes=[n], name="g", opset_imports={"": 20})
         target = g
     elif name == "unsorted_outer":
-        # known finding: node B listed before the node A that produces its input
+        # fixed 82dd72c (was: silent aliasing): node B listed before the node A that produces its input -> rejected
         x = val("x")
         a = ir.Node("", "Relu", [x], name="A")
         a.outputs[0].name = "a"
@@ -1520,15 +1527,15 @@ def oracle(spec: dict, rename: bool = True) -> list[dict]:
             bad("rejected", f"clone of a closed, sorted graph raised {type(e).__name__}: {str(e)[:120]}")
         now = snapshot(ir, sc["model"], skip_uses_of=outer)
         if now != before or serialize(ir, sc["model"]) != ser_before:
-            # own values used before their definition are passed through like outer-scope values when the flag is
-            # set (known finding): the abandoned clone's nodes stay registered as their users
-            if allow and ubd and serialize(ir, sc["model"]) == ser_before and \
-                    snapshot(ir, sc["model"], skip_uses_of=outer + ubd) == before_ubd:
-                bad("rejected-clone-left-users-on-own-values",
-                    f"a rejected clone left its nodes as users of {ubd[0].name!r}, a value of the original used before its definition")
-            else:
-                bad("original-changed", "a rejected clone changed the original: " + first_diff(before, now))
+            # (before fix 82dd72c a rejected clone of an unsorted graph could leave its nodes registered as users of
+            # an own value used before its definition; it is now rejected before the node is built)
+            what = "a rejected clone changed the original: " + first_diff(before, now)
+            if ubd and snapshot(ir, sc["model"], skip_uses_of=outer + ubd) == before_ubd:
+                what += f" (only the users of {ubd[0].name!r}, a value used before its definition, changed)"
+            bad("original-changed", what)
         return fails
+    if spec.get("expect") == "rejected":
+        bad("accepted", "this scenario must be rejected (a value is used before it is defined) but clone() returned")
     if outer and not allow and kind in (0, 1):
         bad("outer-accepted", f"graph references outer-scope value {outer[0].name!r} but the clone was not rejected")
     if foreign_out:
@@ -1731,7 +1738,6 @@ def all_oracles(spec: dict, rename: bool = True) -> list[dict]:
 
 # --------------------------------------------------------------------------- known findings (by site + witness)
 
-KNOWN_UNSORTED = "unsorted-outer-scope"
 KNOWN_TENSOR = "tensor-rename-alias"
 
 
@@ -1742,16 +1748,6 @@ def classify(spec: dict, fails: list[dict]) -> tuple[list[str], list[dict]]:
         return [], []
     keys, rest = [], list(fails)
     sc = scenario_of(spec)
-    # (1) use before definition + allow_outer_scope_values: the clone references the original's own value
-    unsorted_allow = sc["allow"] and not is_sorted(ir, cloned_graph_of(sc))
-    if unsorted_allow and any(f["kind"] == "references-original" for f in rest):
-        keys.append(KNOWN_UNSORTED)
-        rest = [f for f in rest if f["kind"] not in ("references-original", "shared", "original-changed",
-                                                     "edit-clone-changes-original", "edit-error")]
-    if unsorted_allow and any(f["kind"] == "rejected-clone-left-users-on-own-values" for f in rest):
-        if KNOWN_UNSORTED not in keys:
-            keys.append(KNOWN_UNSORTED)
-        rest = [f for f in rest if f["kind"] != "rejected-clone-left-users-on-own-values"]
     # (2) Value.name setter renames the tensor object shared by clone and original: attributed by re-running the
     # oracle with value renaming switched off
     alias_kinds = ("edit-clone-changes-original", "edit-original-changes-clone", "functional-pass")
